@@ -481,6 +481,8 @@ def _emit_symbol(
                 "{emit_name}_name".format(
                     emit_name={
                         "argparse": "function",
+                        "pydantic": "class",
+                        "sqlalchemy": "class",
                         "sqlalchemy_table": "table",
                         "sqlalchemy_hybrid": "table",
                     }.get(emit_name, emit_name)
